@@ -468,7 +468,31 @@ pub fn build(c: &SCase) -> Result<Built, String> {
             (n.clone(), f)
         })
         .collect();
-    let state_model = Arc::new(StateModel::empty().extend(feats).map_err(|e| format!("state: {}", e))?);
+    // as in the application, the query's declaration lands on a model that already holds the feature: first the
+    // section-level declaration (the traversal / access model's own unit, counted from 0), then the query's
+    // own — same names, same kinds, in the same order — which must replace unit and initial value
+    let (bdu, btu) = match &c.trav {
+        Trav::Dist(du) => (Some(*du), None),
+        Trav::Speed { du, tu, .. } => (Some(*du), Some(*tu)),
+    };
+    let btu = btu.or(match &c.access {
+        Acc::Turn { tu, .. } => Some(*tu),
+        Acc::None => None,
+    });
+    let base: Vec<(String, StateFeature)> = feats
+        .iter()
+        .map(|(n, f)| {
+            let g = match f {
+                StateFeature::Distance { distance_unit, .. } => StateFeature::Distance { distance_unit: bdu.unwrap_or(*distance_unit), initial: Distance::new(0.0) },
+                StateFeature::Time { time_unit, .. } => StateFeature::Time { time_unit: btu.unwrap_or(*time_unit), initial: Time::new(0.0) },
+                other => other.clone(),
+            };
+            (n.clone(), g)
+        })
+        .collect();
+    let state_model = Arc::new(
+        StateModel::empty().extend(base).and_then(|m| m.extend(feats)).map_err(|e| format!("state: {}", e))?,
+    );
     let mut max_speed = 0.0;
     let scratch = if c.app.any() { Some(Scratch::new()) } else { None };
     // the query starts empty; the cost-model overrides, road classes, vehicle parameters and the
